@@ -70,6 +70,7 @@ class Ctx:
         self.model = None               # model of the current solver state, if known
         self.symbols: dict[str, z3.BitVecRef] = {}
         self.sym_ranges: dict[str, tuple] = {}
+        self.str_symbols: dict = {}
         self.obligations: list[z3.BoolRef] = []
         self.max_decisions = max_decisions
         self.path_wall_s = path_wall_s
@@ -95,6 +96,12 @@ class Ctx:
             if hi is not None:
                 self.assume_base(v <= z3.BitVecVal(hi, W))
         return SymInt(self.symbols[name], self.sym_ranges.get(name))
+
+    def str_sym(self, name: str):
+        """Declare (idempotently) a symbolic string (z3 sequence sort); used by the STR harnesses only."""
+        if name not in self.str_symbols:
+            self.str_symbols[name] = z3.String(name)
+        return self.str_symbols[name]
 
     def assume_base(self, cond) -> None:
         if not self.first_path:
@@ -288,6 +295,8 @@ def model_to_dict(ctx: Ctx, m) -> dict:
     out = {}
     for name, v in ctx.symbols.items():
         out[name] = m.eval(v, model_completion=True).as_signed_long()
+    for name, v in ctx.str_symbols.items():
+        out[name] = m.eval(v, model_completion=True).as_string()
     return out
 
 
@@ -361,6 +370,43 @@ def B(x):
 
 
 _fmt_registry: list = []
+_PUA0, _PUA_N, _PUA_FILL = 0xE000, 6000, 0xF8FE
+
+
+def fmt_token(n: int, spec: str) -> str:
+    """width-preserving token of private-use characters identifying registry entry n"""
+    import re as _re
+    m = _re.match(r'^(?:.?[<>^=])?[+\- ]?#?0?(\d+)?', spec or '')
+    width = int(m.group(1)) if m and m.group(1) else 0
+    if n >= _PUA_N * _PUA_N:
+        raise Inconclusive('format registry overflow')
+    tok = chr(_PUA0 + n // _PUA_N) + chr(_PUA0 + n % _PUA_N)
+    if width == 1 and n < _PUA_N:
+        return chr(_PUA0 + n) + ''      # single cell: only for small registries
+    return tok + chr(_PUA_FILL) * max(0, width - 2)
+
+
+def decode_tokens(text: str):
+    """-> list of (start, end, term, spec) for every token in text"""
+    out = []
+    i = 0
+    while i < len(text):
+        o = ord(text[i])
+        if _PUA0 <= o < _PUA0 + _PUA_N and i + 1 < len(text) and _PUA0 <= ord(text[i + 1]) < _PUA0 + _PUA_N:
+            n = (o - _PUA0) * _PUA_N + (ord(text[i + 1]) - _PUA0)
+            j = i + 2
+            while j < len(text) and ord(text[j]) == _PUA_FILL:
+                j += 1
+            e, spec = _fmt_registry[n]
+            out.append((i, j, e, spec))
+            i = j
+        else:
+            i += 1
+    return out
+
+
+def reset_fmt_registry():
+    del _fmt_registry[:]
 
 
 def _rng_of(x):
@@ -720,13 +766,13 @@ class SymInt:
             raise ValueError("byteorder must be either 'little' or 'big'")
         return bs
 
-    # -- rendering: opaque, never forks --
+    # -- rendering: opaque, never forks; the token has the width the format spec asks for and can be decoded back --
     def __format__(s, spec):
         c = s.concrete()
         if c is not None:
             return format(c, spec)
         _fmt_registry.append((s.e, spec))
-        return f'{len(_fmt_registry) - 1}'
+        return fmt_token(len(_fmt_registry) - 1, spec)
 
     def __str__(s):
         return s.__format__('')
